@@ -28,7 +28,7 @@
  *        that fails in mid-run, e.g. the marker line of a killed command, while the stream is still open).
  *        t4 = the same, and the stream is closed d<ms> milliseconds after the bytes were written.
  *   xd e<code> | xd s<sig> | xd null -> "<ret>"      (exec_destroy of execcmd.c on a real child; exit_exec.c)
- *   cmd S K HEX                      -> "<hex of the command string dsh() hands to rcmd_connect for its one target>"
+ *   cmd S K HEX [DEFAULT-RCMD]       -> "<hex of the command string dsh() hands to rcmd_connect for its one target>"
  *        (what the transport is asked to run when the user's command is HEX: with -S / -k the request for the
  *        status marker must have been appended, otherwise an in-band transport can never report a failure)
  */
@@ -93,6 +93,23 @@ static void *_closer(void *arg)
     return NULL;
 }
 
+static void *_big_writer(void *arg)
+{
+    struct script *s = arg;
+    struct timespec ts = { s->delay_ms / 1000, (s->delay_ms % 1000) * 1000000L };
+    int off = 0;
+    while (off < s->outlen) {
+        int n = (int) write(s->wfd, s->out + off, (size_t) (s->outlen - off));
+        if (n <= 0)
+            break;                  /* the reader has gone away */
+        off += n;
+    }
+    nanosleep(&ts, NULL);
+    close(s->wfd);
+    s->wfd = -1;
+    return NULL;
+}
+
 static void *_chatter(void *arg)
 {
     struct script *s = arg;
@@ -123,6 +140,7 @@ static void start_thread(void *(*fn)(void *), struct script *s)
 }
 
 static int cmd_report_fd = -1;      /* op `cmd`: where rcmd_connect reports the command it was given */
+static char *cmd_default_rcmd;     /* op `cmd`: opt->rcmd_name */
 static int event_fd = -1;           /* op `dshk`: the transport's event log */
 
 static void log_event(char what, int idx)
@@ -176,9 +194,15 @@ int rcmd_connect(struct rcmd_info *rcmd, char *host, char *addr, char *locuser, 
     }
     if (pipe(pfd) < 0)
         abort();
+    s->wfd = pfd[1];
+    if (s->outlen > 60000 && !s->hang) {
+        /* more than a pipe holds: written by a thread of its own (then the delay, then the close) */
+        start_thread(_big_writer, s);
+        rcmd->fd = pfd[0];
+        return pfd[0];
+    }
     if (s->outlen > 0 && write(pfd[1], s->out, s->outlen) != s->outlen)
         abort();
-    s->wfd = pfd[1];
     if (s->hang == 2) {
         start_thread(_chatter, s);
     } else if (s->hang == 3 || s->hang == 4) {
@@ -423,6 +447,11 @@ static void op_cmd(char *line)
     ucmd = malloc(n + 1);
     memcpy(ucmd, raw, n);
     ucmd[n] = '\0';
+    {   /* optional: the name of the DEFAULT transport (opt->rcmd_name); the target itself is served by the scripted
+         * in-band transport whatever that name says, as a `-w other:host` target is */
+        char *sp = strchr(line + consumed, ' ');
+        cmd_default_rcmd = (sp && sp[1]) ? sp + 1 : NULL;
+    }
     memset(&scripts[0], 0, sizeof(scripts[0]));
     scripts[0].wfd = -1;
     scripts[0].connect_ok = 1;
@@ -451,6 +480,7 @@ static void op_cmd(char *line)
         opt.cmd = Strdup(ucmd);
         opt.ret_remote_rc = S;
         opt.kill_on_fail = K;
+        opt.rcmd_name = cmd_default_rcmd ? Strdup(cmd_default_rcmd) : NULL;
         opt.wcoll = hostlist_create("h0");
         exit(dsh(&opt) & 0xff);
     }
